@@ -2070,7 +2070,9 @@ impl fmt::Display for Group<'_> {
             group_str.push_str(gc_str.trim_start());
           }
         } else {
-          group_str.push_str(&gc.to_string());
+          // (already rendered above and left untouched on this path; rendering the
+          // choice a second time made formatting exponential in the nesting depth)
+          group_str.push_str(&gc_str);
         }
 
         if self.group_choices.len() > 2 && gc.group_entries.len() <= 3 {
